@@ -342,7 +342,12 @@ def one_case(ctx, world, rng, idx, deadline):
             if ok and all(h["to"] == start["server"] for h in hops) and len(patron.responses) == 1:
                 tag2 = tag + "-again"
                 del world.seen[:]
-                patron.request(method=method, path=start["path"], qargs=_od(start["query"]), headers=_od([("X-Vf-Id", tag2)]))
+                if rng.random() < 0.5:       # both public ways to start an exchange: the request queue, or transmit() directly
+                    patron.request(method=method, path=start["path"], qargs=_od(start["query"]), headers=_od([("X-Vf-Id", tag2)]))
+                    ctx.hit("second_exchange_by_request")
+                else:
+                    patron.transmit(method=method, path=start["path"], qargs=_od(start["query"]), headers=_od([("X-Vf-Id", tag2)]))
+                    ctx.hit("second_exchange_by_transmit")
                 r2 = 0
                 t1 = time.time()
                 while r2 < 3000 and len(patron.responses) < 2:
@@ -425,6 +430,7 @@ def run(ctx):
     ctx.floor("distinct_nontrivial", total // 2)
     ctx.floor("completed_chains", total // 2)
     ctx.floor("second_chain_on_same_patron", total // 10)
+    ctx.floor("second_exchange_by_transmit", total // 30)
     ctx.floor("downgrade_cases", total // 60)
     for f, d in (("abs", 4), ("abspath", 10), ("relpath", 10), ("queryonly", 20), ("netpath", 8)):
         ctx.floor("form:" + f, total // d)
